@@ -370,8 +370,12 @@ KPaymentCreate(S, a) ==
 KPaymentWithdraw(S, a) == Res(PaymentWithdraw(S, BId(a.t, a.d, a.g, a.o, a.p)))
 KPaymentClose(S, a)    == Res(PaymentClose(S, BId(a.t, a.d, a.g, a.o, a.p)))
 
+\* a plain bank transfer to the escrow module account: the module account is a blocked address (app.BlockedAddrs)
+SendToEscrow(S, a) == Fail(S)
+
 Handler(S, a) ==
   CASE a.act = "CreateDeployment"  -> CreateDeployment(S, a)
+    [] a.act = "SendToEscrow"      -> SendToEscrow(S, a)
     [] a.act = "DepositDeployment" -> DepositDeployment(S, a)
     [] a.act = "UpdateDeployment"  -> UpdateDeployment(S, a)
     [] a.act = "CloseDeployment"   -> CloseDeployment(S, a)
@@ -403,7 +407,7 @@ Apply(S, a) == LET r == Handler(S, a) IN [S |-> IF r.err THEN S ELSE r.S, ok |->
 RequiredSigner(a) ==
   CASE a.act \in {"CreateDeployment", "DepositDeployment", "UpdateDeployment", "CloseDeployment",
                   "CloseGroup", "PauseGroup", "StartGroup", "CreateLease", "CloseLease",
-                  "KAccountCreate", "KDeposit"} -> a.t
+                  "KAccountCreate", "KDeposit", "SendToEscrow"} -> a.t
     [] a.act \in {"CreateBid", "CloseBid", "WithdrawLease", "CreateProvider", "UpdateProvider"} -> a.p
     [] a.act \in {"SignAttributes", "DeleteAttributes"} -> a.a
     [] OTHER -> "none"
